@@ -108,7 +108,8 @@ class PersistentMixin(Module):
             try:
                 pobj = self.parameters[pname]
                 if getattr(pobj, 'persistent', False):
-                    result[pname] = self.parameters[pname].datatype.import_value(value)
+                    datatype = self.parameters[pname].datatype
+                    result[pname] = datatype.validate(datatype.import_value(value))
             except Exception as e:
                 # ignore invalid persistent data (in case parameters have changed)
                 self.log.warning('can not restore %r to %r (%r)', pname, value, e)
